@@ -49,7 +49,7 @@ class FastSim:
         for p, a in zip(ir.params(fn), args):
             env[p.get("id")] = a
         nm = fn.get("name")
-        if nm == "resize_container":
+        if self.is_level_resizer(fn):
             # summarised: afterwards index[I] < size of that level (its body is checked against that postcondition by C17.fast)
             k = self.const_targ(fn)
             c = args[0]
@@ -57,7 +57,8 @@ class FastSim:
                 raise Stuck("resize_container on %s" % (c,))
             st.facts.add(("lt", k, c[1]))
             st.events.append(("resize", c[1], k))
-            yield ("ret", None, st)
+            # a resizer that returns something returns the slot it made room for
+            yield ("ret", ("idx", k) if "void" not in ir.qtype(fn).split("(")[0] else None, st)
             return
         self.depth += 1
         try:
@@ -68,6 +69,21 @@ class FastSim:
                     yield out
         finally:
             self.depth -= 1
+
+    def is_level_resizer(self, fn):
+        """the member that makes room in one level: it calls resize() on its container parameter (whatever it is named)"""
+        ps = ir.params(fn)
+        if not ps or ir.body(fn) is None or self.const_targ(fn) is None:
+            return False
+        c0 = ps[0].get("name")
+        for x in ir.walk_expr(ir.body(fn)):
+            if x.get("kind") == "CXXMemberCallExpr":
+                m = ir.strip(ir.ekids(x)[0])
+                if m.get("kind") == "MemberExpr" and m.get("name") == "resize" and ir.ekids(m):
+                    b = ir.strip(ir.ekids(m)[0])
+                    if b.get("kind") == "DeclRefExpr" and (b.get("referencedDecl") or {}).get("name") == c0:
+                        return True
+        return False
 
     def const_targ(self, fn):
         for a in ir.template_args(fn):
